@@ -382,6 +382,23 @@ class GGenSW:
             return ("push", ("chr", r.choice(L)))
         return ("dot",) if r.random() < 0.3 else ("plus", ("chr", r.choice(L)))
 
+    def mixed(self):
+        """a choice some of whose alternatives consume nothing but can fail (& ! predicate), not in last position"""
+        r = self.rng
+        L = self.LETTERS
+        alts = [("chr", r.choice(L))]
+        for _ in range(r.randint(1, 2)):
+            k = r.random()
+            if k < 0.4:
+                alts.append(("and", ("cls", False, False, [("r", r.choice(L[:4]), r.choice(L[4:]))])))
+            elif k < 0.7:
+                alts.append(("not", ("chr", r.choice(L))))
+            else:
+                alts.append(("pred", r.choice([2, 3])))
+        alts.append(("chr", r.choice(L)) if r.random() < 0.8 else ("cls", False, False, [("r", 97, 99)]))
+        r.shuffle(alts)
+        return ("alt", alts)
+
     def tail(self, rank):
         r = self.rng
         c = r.random()
@@ -406,6 +423,9 @@ class GGenSW:
             if depth > 0 and r.random() < 0.15:
                 h = self.choice(rank, depth - 1)
             items = [h] + self.tail(rank)
+            if r.random() < 0.12:
+                # possibly-empty choice in head position, followed by something that consumes
+                items = [self.mixed(), ("cls", False, False, [("r", 48, 57)])] + self.tail(rank)
             if r.random() < 0.1:
                 items = [("act", self._act())] + items if False else items
             alts.append(("seq", items) if len(items) > 1 else h)
@@ -434,6 +454,63 @@ class GGenSW:
         refs = [("q", ("seq", [("chr", 0x77), ("name", n)])) for n in self.names[:-1]]
         top = ("seq", [("star", ("seq", [("name", self.names[-1]), ("chr", 0x76)]))] + refs + [("not", ("dot",))])
         return [("S", top)] + rules
+
+
+class GGenIN:
+    """inline-shaped grammars: rules referenced exactly once (so that -inline compiles them at their call
+    site, without the rule wrapper's save/restore), used as bare alternatives of ordered choices, as
+    operands of ? * + & !, and chained; their bodies consume several characters before they can fail"""
+
+    def __init__(self, rng):
+        self.rng = rng
+        self.nact = 0
+
+    def act(self):
+        self.nact += 1
+        return ("act", self.nact - 1)
+
+    def leaf_body(self):
+        r = self.rng
+        n = r.randint(2, 3)
+        items = [("chr", r.choice(ALPHA[:3])) for _ in range(n)]
+        if r.random() < 0.3:
+            items[r.randrange(n)] = ("cls", False, False, [("r", 97, 98)])
+        if r.random() < 0.35:
+            k = r.randrange(n)
+            items[k] = ("push", items[k])
+        if r.random() < 0.35:
+            items.insert(r.randint(1, n), self.act())
+        return ("seq", items)
+
+    def grammar(self):
+        r = self.rng
+        nleaf = r.randint(3, 6)
+        leaves = [("L%d" % i, self.leaf_body()) for i in range(nleaf)]
+        free = [n for n, _ in leaves]
+        r.shuffle(free)
+        mids = []
+
+        def take():
+            return ("name", free.pop()) if free else ("chr", r.choice(ALPHA))
+        for j in range(r.randint(1, 3)):
+            if not free:
+                break
+            c = r.random()
+            if c < 0.55:
+                alts = [take() for _ in range(r.randint(2, 3))]
+                if r.random() < 0.4:
+                    alts.append(("seq", [("chr", r.choice(ALPHA[:3])), ("chr", r.choice(ALPHA))]))
+                body = ("alt", alts)
+            elif c < 0.75:
+                body = ("seq", [(r.choice(["q", "star", "and", "not"]), take()), ("plus", ("cls", False, False, [("r", 97, 100)]))])
+            else:
+                body = ("seq", [take(), ("q", take())])
+            mids.append(("M%d" % j, body))
+        tops = [("name", n) for n, _ in mids] + [("name", n) for n in free]
+        r.shuffle(tops)
+        top = ("alt", tops + [("plus", ("cls", False, False, [("r", 97, 100)]))]) if len(tops) > 1 else ("alt", tops + [("chr", 0x7A)])
+        rules = [("R0", ("seq", [top, ("star", ("cls", False, False, [("r", 97, 100)])), ("not", ("dot",))]))] + mids + leaves
+        return rules
 
 
 def sample_from(rng, rules, e, depth=0):
